@@ -7,10 +7,10 @@ seed=$first
 i=0
 while [ $i -lt $rounds ]; do
   for p in C04 C12 C10 C18 C16 C17; do
-    VERIF_SEED=$seed VERIF_EVIDENCE_DIR=$PWD/soak_ev VERIF_REPLAY_DIR=$PWD/soak_ev ./check run $p --tier thorough > soak_$p_$seed.out 2>&1
+    VERIF_SEED=$seed VERIF_EVIDENCE_DIR=$PWD/soak_ev VERIF_REPLAY_DIR=$PWD/soak_ev ./check run $p --tier thorough > soak_${p}_${seed}.out 2>&1
     rc=$?
-    echo "seed=$seed $p rc=$rc $(grep '^\[icalsim\] C' soak_$p_$seed.out | cut -c1-200)" >> soak.log
-    grep "violation signature\|HARNESS-ERROR\|VIOLATION" soak_$p_$seed.out | cut -c1-400 >> soak.log
+    echo "seed=$seed $p rc=$rc $(grep '^\[icalsim\] C' soak_${p}_${seed}.out | cut -c1-200)" >> soak.log
+    grep "violation signature\|HARNESS-ERROR\|VIOLATION" soak_${p}_${seed}.out | cut -c1-400 >> soak.log
   done
   seed=$((seed+1)); i=$((i+1))
 done
